@@ -8,6 +8,7 @@
 #include <QDate>
 #include <QDateTime>
 #include <QUrl>
+#include <QUuid>
 #include <cmath>
 #include <iostream>
 #include <limits>
@@ -64,7 +65,9 @@ static std::vector<V> domain()
     } else if constexpr (std::is_same_v<V, QUrl>) {
         out = { QUrl(u"https://example.org/x1"_s), QUrl(u"https://example.org/a%20b?x=1&y=%3C2%3E#frag"_s), QUrl(u"xmpp:user@example.org?join"_s), QUrl(QString::fromUtf8("https://example.org/\xc3\xbc?q=a&b=c")),
                 QUrl(u"https://user:pw@example.org:8443/p/a/t/h;x=1"_s) };
-    } else if constexpr (std::is_same_v<V, QStringList> || std::is_same_v<V, QVector<QString>>) {
+    } else if constexpr (std::is_same_v<V, QUuid>) {
+        out = { QUuid(u"{d4565ee7-bbb3-4cbe-8a45-1f2c7c9e0a11}"_s), QUuid(u"{00000000-0000-4000-8000-000000000001}"_s), QUuid(u"{ffffffff-ffff-4fff-bfff-ffffffffffff}"_s) };
+    } else if constexpr (std::is_same_v<V, QStringList> || std::is_same_v<V, QVector<QString>> || std::is_same_v<V, QList<QString>> || std::is_same_v<V, std::vector<QString>>) {
         out = { V { u"x1"_s }, V { u"a"_s, u"b"_s, u"c"_s }, V { u"b"_s, u"a"_s }, V { u"a<b>&\"'c"_s, QString::fromUtf8("\xc3\xa9\xe4\xb8\xad") }, V { u"one two"_s, u"three"_s } };
     }
     return out;
@@ -92,7 +95,9 @@ static QString show(const V &v)
         return v.toString(Qt::ISODate);
     } else if constexpr (std::is_same_v<V, QUrl>) {
         return QString::fromLatin1(v.toEncoded());
-    } else if constexpr (std::is_same_v<V, QStringList> || std::is_same_v<V, QVector<QString>>) {
+    } else if constexpr (std::is_same_v<V, QUuid>) {
+        return v.toString();
+    } else if constexpr (std::is_same_v<V, QStringList> || std::is_same_v<V, QVector<QString>> || std::is_same_v<V, QList<QString>> || std::is_same_v<V, std::vector<QString>>) {
         return QStringList(v.begin(), v.end()).join(u" | ");
     } else {
         return u"?"_s;
@@ -111,7 +116,7 @@ static bool same(const V &want, const G &got)
         return got.isValid() && want.toMSecsSinceEpoch() == got.toMSecsSinceEpoch();   // the instant; the zone of representation is not judged
     } else if constexpr (std::is_floating_point_v<V>) {
         return double(want) == double(got);
-    } else if constexpr (std::is_same_v<V, QStringList> || std::is_same_v<V, QVector<QString>>) {
+    } else if constexpr (std::is_same_v<V, QStringList> || std::is_same_v<V, QVector<QString>> || std::is_same_v<V, QList<QString>> || std::is_same_v<V, std::vector<QString>>) {
         // list-valued fields are compared as multisets ("up to sibling order")
         QStringList a(want.begin(), want.end()), b(got.begin(), got.end());
         a.sort();
@@ -134,6 +139,9 @@ static const std::map<std::string, std::pair<long double, long double>> RANGES =
     { "QXmppResultSetReply.setCount", { 0, 2147483647.0L } },
     { "QXmppResultSetReply.setIndex", { 0, 2147483647.0L } },
     { "QXmppTuneItem.setRating", { 1, 10 } },                        // XEP-0118: 1..10
+};
+static const std::map<std::string, std::pair<long long, int>> MULTIPLE_OF = {
+    { "QXmppEntityTimeIq.setTzo", { 60, 0 } },   // seconds, written as +hh:mm, |offset| < 14 h
 };
 // fields exempt by the statement itself
 static const std::map<std::string, const char *> EXCLUDED = {
@@ -196,17 +204,53 @@ static bool toDom(QByteArray x, QDomDocument &doc, bool &wrapped)
 
 static int g_fields = 0, g_live = 0, g_values = 0, g_fail = 0, g_skip = 0;
 
+static std::vector<QByteArray> binaryDomain()
+{
+    QByteArray all;
+    for (int i = 0; i < 256; i++) all.append(char(i));
+    std::vector<QByteArray> out { QByteArray("x1"), all, QByteArray(1, '\0'), QByteArray("\xff\xfe\x00\x01", 4), QByteArray(1000, 'z') };
+    for (int n : { 1, 2, 3, 4, 5, 31, 32, 33 }) {
+        QByteArray b;
+        for (int i = 0; i < n; i++) b.append(char(g_rng()));
+        out.push_back(b);
+    }
+    return out;
+}
+
+template<class T, class V, class G, class Set, class Get>
+static void runAccess(const char *cls, const char *setter, Set set, Get get, bool binary);
+
 template<class T, class C1, class A, class C2, class R>
 static void runField(const char *cls, const char *setter, void (C1::*set)(A), R (C2::*get)() const)
 {
     using V = std::decay_t<A>;
     using G = std::decay_t<R>;
+    runAccess<T, V, G>(cls, setter, [set](T &o, const V &v) { (o.*set)(v); }, [get](const T &o) -> G { return (o.*get)(); }, false);
+}
+
+// aggregates with public members (the private nonza structs)
+template<class T, class V>
+static void runMember(const char *cls, const char *name, V T::*mem, bool binary = false)
+{
+    runAccess<T, V, V>(cls, name, [mem](T &o, const V &v) { o.*mem = v; }, [mem](const T &o) -> V { return o.*mem; }, binary);
+}
+
+template<class T, class V, class G, class Set, class Get>
+static void runAccess(const char *cls, const char *setter, Set set, Get get, bool binary)
+{
     g_fields++;
     if (g_fields <= g_skip) return;
     printf("FIELD %d %s %s\n", g_fields, cls, setter);
     fflush(stdout);
     auto dom = domain<V>();
+    if constexpr (std::is_same_v<V, QByteArray>) {
+        if (binary) dom = binaryDomain();
+    }
     const std::string key = std::string(cls) + "." + setter;
+    if (dom.empty()) {
+        emitJson(QJsonObject { { "cls", QString::fromLatin1(cls) }, { "field", QString::fromLatin1(setter) }, { "excluded", u"value type not supported by the harness"_s } });
+        return;
+    }
     if (EXCLUDED.count(key)) {
         emitJson(QJsonObject { { "cls", QString::fromLatin1(cls) }, { "field", QString::fromLatin1(setter) }, { "excluded", QString::fromLatin1(EXCLUDED.at(key)) } });
         return;
@@ -218,15 +262,26 @@ static void runField(const char *cls, const char *setter, void (C1::*set)(A), R 
             if (V v = dom[i]; inRange(v, it->second.first, it->second.second)) kept.push_back(v);
         dom = kept;
     }
+    if constexpr (std::is_integral_v<V> && !std::is_same_v<V, bool>) {
+        // fields whose lexical form has a coarser unit than the C++ type (XEP-0082 offsets are written as +hh:mm)
+        if (auto it = MULTIPLE_OF.find(key); it != MULTIPLE_OF.end()) {
+            std::vector<V> kept;
+            for (auto v : dom) {
+                const long long q = (long long)(v) % (it->second.first * 24 * 14) / it->second.first * it->second.first;
+                kept.push_back(V(q ? q : it->second.first));
+            }
+            dom = kept;
+        }
+    }
     for (auto &[stateName, prep] : states<T>()) {
         QJsonObject rec { { "cls", QString::fromLatin1(cls) }, { "field", QString::fromLatin1(setter) }, { "state", stateName } };
         QJsonArray fails;
         auto attempt = [&](const V &v, QString &got, QByteArray &xml) -> bool {
-            T o;
+            T o {};
             prep(o);
-            (o.*set)(v);
+            set(o, v);
             // a value the setter itself refuses or normalises is outside the field's domain
-            if (!same(v, G((o.*get)()))) {
+            if (!same(v, G(get(o)))) {
                 got = u"(setter-domain)"_s;
                 return true;
             }
@@ -242,7 +297,7 @@ static void runField(const char *cls, const char *setter, void (C1::*set)(A), R 
                 got = u"(own output refused)"_s;
                 return false;
             }
-            const G g = ((*o2).*get)();
+            const G g = get(*o2);
             got = show(g);
             return same(v, g);
         };
@@ -250,9 +305,9 @@ static void runField(const char *cls, const char *setter, void (C1::*set)(A), R 
         QByteArray xml;
         // the probe is the first benign value that differs from what the prepared object reports anyway
         {
-            T o;
+            T o {};
             prep(o);
-            const G def = (o.*get)();
+            const G def = get(o);
             for (size_t i = 0; i < dom.size(); i++) {
                 if (V v = dom[i]; !same(v, def)) {
                     if (i) {
@@ -289,6 +344,8 @@ static void runField(const char *cls, const char *setter, void (C1::*set)(A), R 
 }
 
 #define F(T, S, G) runField<T>(#T, #S, &T::S, &T::G)
+#define M(T, MEM) runMember<T>(#T, #MEM, &T::MEM)
+#define MB(T, MEM) runMember<T>(#T, #MEM, &T::MEM, true)
 
 int main()
 {
